@@ -400,20 +400,27 @@ def exec_elementwise(mem, F, acc_name, counters):
             else:
                 raw = a * F.opa_scale + sgn * b * F.opb_scale
             out = scale_round(raw, F.ofm_scale, F.ofm_shift, F.rounding)
-    elif sub == "MUL" and F.ifm.bits == 32 and F.ofm.bits == 32 and (F.ofm_scale, F.ofm_shift) != (1, 0):
-        # 32-bit operands and a 32-bit result with a normalised output scale (only the softmax lowering emits this): calibrated so that (2^30, 31)
-        # denotes the gemmlowp fixed-point product SRDHM(a, b), which makes the whole lowering bit-exact with the reference kernel on every network
-        # tried; a 32-bit product narrowed to 8/16 bits (MEAN lowering) follows the ordinary (product * scale) >> shift rule (DESIGN section 8)
-        total = F.ofm_shift + 30
+    elif sub == "MUL" and F.ifm.bits == 32 and F.ofm_scale != 1 and (F.ofm.bits == 32 or F.global_scale):
+        # 32-bit operands and a 32-bit result: the product is shifted right by the programmed shift with rounding to nearest (ties away from zero) and the
+        # programmed multiplier is not applied ("32 bit Mul op do not scale the value", tflite_graph_optimiser.convert_squared_difference).  Calibrated on two
+        # independent lowerings: with it the 30-pass softmax lowering (which programs (2^30, 31), i.e. SRDHM(a, b)) is bit-exact with the reference kernel,
+        # and the squared-difference lowering (multipliers passed as the second operand, arbitrary programmed multiplier) reproduces its reference kernel;
+        # the earlier reading "product * multiplier >> (shift + 30)" coincides with this one on softmax and is refuted by squared difference (DESIGN 8.4b).
+        # The MEAN lowering programs the multiplier 1, for which both readings coincide; it keeps the ordinary (product * scale) >> shift path below.
+        total = F.ofm_shift
         fa, fb = a.reshape(-1).tolist(), b.reshape(-1).tolist()
         res = []
         for x, y in zip(fa, fb):
-            num = int(x) * int(y) * int(F.ofm_scale)
-            nudge = (1 << (total - 1)) if num >= 0 else 1 - (1 << (total - 1))
-            q = abs(num + nudge) >> total
-            q = q if num + nudge >= 0 else -q
+            num = int(x) * int(y)
+            if total > 0:
+                nudge = (1 << (total - 1)) if num >= 0 else 1 - (1 << (total - 1))
+                q = abs(num + nudge) >> total
+                q = q if num + nudge >= 0 else -q
+            else:
+                q = num
             res.append(max(-(1 << 31), min((1 << 31) - 1, q)))
         out = np.array(res, dtype=np.int64).reshape(a.shape)
+        counters["mul32_shift_only"] = counters.get("mul32_shift_only", 0) + 1
     elif sub == "MUL":
         raw = a * b
         out = scale_round(raw, F.ofm_scale, F.ofm_shift, F.rounding) if (F.ofm_scale, F.ofm_shift) != (1, 0) else raw
